@@ -70,6 +70,7 @@ type interpreter struct {
 	summ        *summCtx
 	pathReach   map[string]int
 	inInit      bool
+	summOK      map[*ssa.Function]bool
 	panicStack  []string
 	frozenNames []string
 	frozenMaps  []*amap
@@ -546,6 +547,20 @@ func callSSAx(i *interpreter, caller *frame, callpos token.Pos, fn *ssa.Function
 	if _, ok := i.funcsSeen[fn]; !ok {
 		i.funcsSeen[fn] = struct{}{}
 	}
+	if i.summ == nil && !skipIntrinsic && !i.cfg.NoSummaries && fn.Parent() == nil {
+		anySym := false
+		for _, a := range args {
+			if isSym(a) {
+				anySym = true
+				break
+			}
+		}
+		if anySym && i.summarisable(fn) {
+			if v, ok := i.summarise(caller, fn, args); ok {
+				return v
+			}
+		}
+	}
 
 	// generic function body?
 	if fn.TypeParams().Len() > 0 && len(fn.TypeArgs()) == 0 {
@@ -683,6 +698,7 @@ func newInterpreter(cfg *Config) *interpreter {
 		onceDone:  map[*value]bool{},
 		funcsSeen: map[*ssa.Function]struct{}{},
 		overrides: map[string]value{},
+		summOK:    map[*ssa.Function]bool{},
 	}
 	runtimePkg := i.prog.ImportedPackage("runtime")
 	if runtimePkg == nil {
